@@ -363,7 +363,17 @@ def run(R):
 
     # ------------------------------------------------------------------ ORD.1 deletes
     R.ob('C15.ORD.1', 'deleting removes everything beneath (certificates, key row, private key; keys of an identity) and resets the signer cache afterwards')
-    pragma = 'foreign_keys' in script.lower() or any('foreign_keys' in src.lower() for (_, _, src) in [P.mods[KM]])
+    # ON DELETE CASCADE works only on a connection on which `PRAGMA foreign_keys = ON` was executed (it is a per-connection setting, not stored in
+    # the database): it counts only when run on the connection the delete methods use, i.e. on self.conn in __init__ (the schema script is run
+    # by initialize() on a connection of its own that is closed again)
+    import re as _re
+    pragma = False
+    ix = ctx(R, f'{KM}.KeychainSqlite3.__init__')
+    for (n_, c_) in calls_in_ctx(ix, pred=lambda c: callee_attr(c) in ('execute', 'executescript') and ast.unparse(c.func.value) == 'self.conn'):
+        a0 = c_.args[0] if c_.args else None
+        txt = a0.value if isinstance(a0, ast.Constant) and isinstance(a0.value, str) else (script if isinstance(a0, ast.Name) and a0.id == 'INITIALIZE_SQL' else '')
+        if _re.search(r'pragma\s+foreign_keys\s*=\s*(on|1|true|yes)\b', txt, _re.I):
+            pragma = True
     want = {
         'del_cert': {'deletes': [('certificates', 'certificate_name')], 'calls': []},
         'del_key': {'deletes': [('certificates', 'key_id'), ('keys', 'key_name')], 'calls': ['delete_key']},
